@@ -77,7 +77,11 @@ class World:
         from txdbus import bus, message, client
         from twisted.internet.testing import StringTransport
         from twisted.internet.protocol import Factory
-        txdbus.protocol._is_linux = False          # no getsockopt on the fake transport
+        # the first byte of a connection makes the protocol read the peer credentials off the socket on Linux; the
+        # fake transport below carries a socket stand-in that answers getsockopt, so no private switch of the
+        # library is needed (the module flag `_is_linux`, where it still exists, is only the fast path)
+        if hasattr(txdbus.protocol, '_is_linux'):
+            txdbus.protocol._is_linux = False
         self.struct = struct
         self.busmod, self.message, self.client = bus, message, client
         self.mode = mode
@@ -90,8 +94,13 @@ class World:
         self.msgs = {}            # cache of call messages
         world = self
 
+        class FakeSocket:
+            def getsockopt(self, level, opt, size=0):
+                return struct.pack('3i', 4242, 0, 0)      # pid, uid, gid of SO_PEERCRED
+
         class Transport(StringTransport):
             owner = None
+            socket = FakeSocket()
 
             def write(self, data):
                 world.raw.append((self.owner, bytes(data)))
@@ -140,10 +149,11 @@ class World:
             p.dataReceived(b'BEGIN\r\n')
             p.dataReceived(self.call_msg('Hello').rawMessage)
         else:
+            # authenticated by fiat (`_authenticated` is pinned by the test suite), then the ordinary Hello through
+            # the public entry point: the library registers the connection and notes that Hello was called itself
             p._authenticated = True
             p.connectionAuthenticated()
-            self.bus.clientConnected(p)
-            p._called_hello = True
+            p.dataReceived(self.call_msg('Hello').rawMessage)
         k = self.kof(p)
         t.owner = k
         self.protos[k] = p
